@@ -1513,6 +1513,7 @@ package log
 //@   ensures[C02:no-delimited-prefix-means-root] !has(cTags, tag) && str_last(stem(tag), '_') <= 0 ==> result == cRoot
 //@   ensures[C02:longest-listed-prefix-wins] !has(cTags, tag) && str_last(stem(tag), '_') > 0 && has(cTags, parentWild(tag)) ==> result == cTags[parentWild(tag)]
 //@   ensures[C02:route] result == route(cTags, cRoot, tag)
+//@   ensures[C02,C16:root-or-a-listed-logger] wit(tag) && (result == cRoot || (exists t2 string :: { wit(t2) } wit(t2) && has(cTags, t2) && result == cTags[t2]))
 
 // ---- C01 / C15: wiring the appender references of a configured logger ------------------------------------
 // NewPlugin hands Refresh a non-nil pointer to an instance of a logger class (one of the six registered
@@ -1611,15 +1612,17 @@ package log
 //@ spec fun malformedWildcard(t string) bool = str_contains(t, "*") && !has_suffix(t, "_*")
 //@ func Refresh/rangefunc1
 //@   params item
-//@   requires freevar(0) == 0 && isold(sref(tags))
+//@   requires freevar(0) == 0
 //@   let t = str_trim(item)
 //@   let tags0 = tags
-//@   modifies cells(int), cells(error), cells([]string), elems(string)
+//@   modifies freevar(0), err, freevar(3), tags, elemsof(tags)
 //@   nopanic[C02]
 //@   ensures[C02:blank-entries-are-skipped] t == "" ==> result && tags == tags0 && err == old(err) && freevar(3) == old(freevar(3))
 //@   ensures[C02:malformed-wildcard-is-an-error] t != "" && malformedWildcard(t) ==> !result && freevar(0) == 1 && freevar(3) != nil && tags == tags0
 //@   ensures[C02:entry-is-recorded-trimmed] t != "" && !malformedWildcard(t) ==> result && freevar(0) == 0 && len(tags) == len(tags0) + 1 && tags[len(tags0)] == t && freevar(3) == old(freevar(3))
 //@   ensures[C02:earlier-entries-kept] t != "" && !malformedWildcard(t) ==> (forall k int :: 0 <= k && k < len(tags0) ==> tags[k] == old(tags[k]))
+//@   ensures[C02:loop-goes-on-iff-no-error] result == (freevar(0) == 0) && (result ==> err == old(err))
+//@   ensures[C02:list-grows-in-place-or-into-a-new-array] sref(tags) == old(sref(tags)) || fresh(sref(tags))
 
 // ---- C15: from the configuration map to the storage: every key is stored under its camelCase spelling ----------
 // ("name!" entries are expanded: the keys of the parsed expression, camel-cased, below the camel-cased name)
@@ -1630,8 +1633,7 @@ package log
 // under contract), so facts about the storage are not carried across the iterations that call it; Set never
 // removes a key (assumed), so what an iteration stores stays stored.
 //@ func toStorage
-//@   requires m != nil
-//@   modifies everything
+//@   modifies foreign
 //@   ensures[C15:storage-or-error] (result1 != nil ==> result0 == nil) && (result1 == nil ==> result0 != nil)
 //@   loop 1 invariant[C15:storage] s != nil
 //@   loop 1 iteration[C15:flat-key-stored-under-its-camel-spelling] !inlineKey($key) ==> stHas[s][toCamelKey($key)] && stVal[s][toCamelKey($key)] == $val
@@ -1660,3 +1662,74 @@ package log
 //@   nopanic[C15]
 //@   nooverflow[C15]
 //@   ensures[C15:bad-size-is-an-error] true
+
+// ---- Refresh as a whole (C02 C12 C15 C16) -------------------------------------------------------------------------
+// Plugin construction is reflection-driven (NewPlugin, inject*): assumed to write only objects it creates
+// itself and to hand back a fresh non-nil plugin of the requested kind (whose appender references, if it
+// has any, are fresh and distinct), or an error.
+//@ func Refresh/newPlugin
+//@   trusted
+//@   modifies nothing
+//@   ensures result1 == nil ==> plugOf(result0) != nil && fresh(ifval(plugOf(result0)))
+//@   ensures result1 == nil && typ == PluginTypeAppender ==> implements(plugOf(result0), Appender)
+//@   ensures result1 == nil && typ == PluginTypeLogger ==> implements(plugOf(result0), Logger) && (hasRefs(plugOf(result0)) ==> refsFresh(refsOf(plugOf(result0)))) && !isold(sref(refsOf(plugOf(result0)).AppenderRefs))
+
+//@ iface Appender.GetName
+//@   pure
+//@ iface Logger.GetName
+//@   pure
+
+// the registries: entries are non-nil, a tag object knows its own name, property setters exist
+//@ spec fun regTagged() bool = forall t string :: has(tagRegistry, t) ==> tagRegistry[t].tag == t
+//@ spec fun propsWF() bool = propertyRegistry != nil && (forall k string :: has(propertyRegistry, k) ==> propertyRegistry[k] != nil)
+//@ spec fun liveListsWF() bool = (forall k int :: 0 <= k && k < len(global.loggers) ==> global.loggers[k] != nil) && (forall k int :: 0 <= k && k < len(global.appenders) ==> global.appenders[k] != nil)
+
+// the routing table and the root logger the last successful Refresh ended with
+//@ ghost var cfgTags gomap[string]Logger
+//@ ghost var cfgRoot Logger
+//@ ghost var cfgLoggers gomap[string]Logger
+
+//@ func Refresh
+//@   callee findLoggerForTag = Refresh/findLoggerForTag
+//@   requires regWF() && regTagged() && propsWF() && liveListsWF()
+//@   modifies everything
+//@   nopanic[C02,C12,C15,C16]
+//@   ghost cfgTags = cTags
+//@   ghost cfgRoot = cRoot
+//@   ghost cfgLoggers = cLoggers
+//@   ensures[C16:second-refresh-is-rejected] old(global.init) ==> result != nil
+//@   ensures[C16:second-refresh-disturbs-nothing] old(global.init) ==> global.init && global.loggers == old(global.loggers) && global.appenders == old(global.appenders) && (forall t string :: has(tagRegistry, t) ==> tagRegistry[t].logger == old(tagRegistry[t].logger)) && (forall n string :: has(loggerMap, n) ==> loggerMap[n].logger == old(loggerMap[n].logger))
+//@   ensures[C16:live-after-success] result == nil ==> global.init && !old(global.init)
+//@   ensures[C16:registries-kept] regWF() && regTagged()
+//@   ensures[C16:every-tag-is-served] result == nil ==> (forall t string :: has(tagRegistry, t) ==> tagRegistry[t].logger != nil)
+//@   ensures[C02:every-tag-routed] result == nil ==> (forall t string :: has(tagRegistry, t) ==> tagRegistry[t].logger == route(cfgTags, cfgRoot, t))
+//@   ensures[C12:every-handle-bound-by-name] result == nil ==> (forall n string :: has(loggerMap, n) ==> has(cfgLoggers, loggerMap[n].name) && loggerMap[n].logger == cfgLoggers[loggerMap[n].name] && loggerMap[n].logger != nil)
+//@   ensures[C16:handles-only-bound-to-started-loggers] forall n string :: has(loggerMap, n) ==> loggerMap[n].logger == old(loggerMap[n].logger) || startedL[loggerMap[n].logger] > old(startedL)[loggerMap[n].logger]
+//@   ensures[C16:tags-only-bound-to-started-loggers] forall t string :: has(tagRegistry, t) ==> tagRegistry[t].logger == old(tagRegistry[t].logger) || startedL[tagRegistry[t].logger] > old(startedL)[tagRegistry[t].logger]
+//@   ensures[C05,C16:live-lists] liveListsWF()
+//@   loop 1 invariant[C02,C12,C15,C16:range] 0 <= $k && $k <= len(appenders)
+//@   loop 1 invariant[C02,C12,C15,C16:appenders-so-far] forall n string :: has(cAppenders, n) ==> cAppenders[n] != nil
+//@   loop 2 writes_loop_objects
+//@   loop 2 invariant[C02,C12,C15,C16:range] 0 <= $k && $k <= len(loggers)
+//@   loop 2 invariant[C02,C12,C15,C16:appenders] cAppenders != nil && (forall n string :: has(cAppenders, n) ==> cAppenders[n] != nil)
+//@   loop 2 invariant[C02,C12,C15,C16:loggers-so-far] cRoot != nil && cLoggers != nil && cTags != nil && fresh(cTags) && (forall n string :: has(cLoggers, n) ==> cLoggers[n] != nil) && has(cLoggers, "root") && cLoggers["root"] == cRoot
+//@   loop 2 invariant[C02,C12,C15,C16:names-so-far] forall n string :: has(cLoggers, n) ==> n == "root" || (exists i int :: { slot(loggers, i) } 0 <= i && i < $k && loggers[i] == n)
+//@   loop 2 invariant[C02,C12,C15,C16:root-default-or-configured] isold(ifval(cLoggers["root"])) || (exists i int :: { slot(loggers, i) } 0 <= i && i < $k && loggers[i] == "root")
+//@   loop 2 invariant[C02,C12,C15,C16:listed-tags-so-far] forall t string :: { wit(t) } wit(t) && has(cTags, t) ==> cTags[t] != nil && !isold(ifval(cTags[t])) && (exists n string :: { wit(n) } wit(n) && has(cLoggers, n) && cLoggers[n] == cTags[t])
+//@   rangefunc 1 invariant[C02,C12,C15,C16:iterating] $jump == 0 && (sref(tags) == 0 || !$existed(sref(tags)))
+//@   loop 3 writes_own_objects
+//@   loop 3 invariant[C02,C12,C15,C16:range] 0 <= $k && $k <= len(tags)
+//@   loop 3 invariant[C02,C12,C15,C16:listed-tags] cTags != nil && fresh(cTags) && (forall t string :: { wit(t) } wit(t) && has(cTags, t) ==> cTags[t] != nil && !isold(ifval(cTags[t])) && (exists n string :: { wit(n) } wit(n) && has(cLoggers, n) && cLoggers[n] == cTags[t]))
+//@   loop 3 invariant[C02,C12,C15,C16:this-logger] !isold(ifval(logger))
+//@   loop 3 invariant[C02,C12,C15,C16:loggers] cRoot != nil && (forall n string :: has(cLoggers, n) ==> cLoggers[n] != nil) && (forall n string :: has(cAppenders, n) ==> cAppenders[n] != nil) && has(cLoggers, "root") && cLoggers["root"] == cRoot && has(cLoggers, name) && cLoggers[name] == logger && logger != nil
+//@   loop 5 invariant[C02,C12,C15,C16:started-so-far] forall n string :: $visited[n] ==> startedL[cLoggers[n]] > old(startedL)[cLoggers[n]]
+//@   loop 5 invariant[C02,C12,C15,C16:never-unstarted] forall x Logger :: startedL[x] >= old(startedL)[x]
+//@   loop 6 invariant[C02,C12,C15,C16:all-started] forall n string :: has(cLoggers, n) ==> startedL[cLoggers[n]] > old(startedL)[cLoggers[n]]
+//@   loop 6 invariant[C02,C12,C15,C16:bound-so-far] forall n string :: $visited[n] ==> has(cLoggers, loggerMap[n].name) && loggerMap[n].logger == cLoggers[loggerMap[n].name]
+//@   loop 6 invariant[C02,C12,C15,C16:bound-only-to-started] forall n string :: has(loggerMap, n) ==> loggerMap[n].logger == old(loggerMap[n].logger) || startedL[loggerMap[n].logger] > old(startedL)[loggerMap[n].logger]
+//@   loop 7 invariant[C02,C12,C15,C16:registries] regTagged() && (forall t string :: $visited[t] ==> has(tagRegistry, t))
+//@   loop 7 invariant[C02,C12,C15,C16:routed-so-far] forall t string :: $visited[t] ==> tagRegistry[t].logger == route(cTags, cRoot, t)
+//@   loop 7 invariant[C02,C12,C15,C16:served-so-far] forall t string :: $visited[t] ==> tagRegistry[t].logger != nil
+//@   loop 7 invariant[C02,C12,C15,C16:bound-only-to-started] forall t string :: has(tagRegistry, t) ==> tagRegistry[t].logger == old(tagRegistry[t].logger) || startedL[tagRegistry[t].logger] > old(startedL)[tagRegistry[t].logger]
+//@   loop 9 invariant[C02,C05,C12,C15,C16:lists] liveListsWF()
+//@   loop 10 invariant[C02,C05,C12,C15,C16:lists] liveListsWF()
